@@ -2687,6 +2687,126 @@ theorem lower_min_version_refused (s : St) (v : Ver) (h : Int) (n : Nat)
   unfold proposal
   split <;> simp [setMinVersion, scheduleMinVersion, hlow]
 
+/-- a version string that does not start with the byte `v` is not a semantic version for
+`golang.org/x/mod/semver`, whatever follows (`2.1.0`, `V2.1.0`, ` v2.1.0`, `=v2.1.0`, the empty
+string): it sorts below every valid version -/
+theorem unprefixed_version_invalid (v : Ver) (h : v.head? ≠ some 118) : vvalid v = false := by
+  unfold vvalid vkey
+  cases v with
+  | nil => rfl
+  | cons c cs =>
+    have hc : c.toNat ≠ 118 := by
+      intro hc
+      apply h
+      have : c = 118 := UInt8.toNat_inj.mp (by simpa using hc)
+      simp [this]
+    simp only [List.map_cons]
+    unfold vkeyNat
+    split
+    · rename_i r heq
+      injection heq with h1 _
+      exact absurd h1 hc
+    · rfl
+
+/-- **min_version_monotone, the invalid strings.** In every history a string that is not a semantic
+version (in particular every string without the leading `v`, however high the number it spells) is
+refused as a new minimum by every entry point — immediate, scheduled, governance proposal — and
+nothing is stored. Together with `min_version_valid`: the stored minimum is always a real version. -/
+theorem invalid_min_version_refused (ops : List Op) (v : Ver) (h : Int) (n : Nat)
+    (hbad : vvalid v = false) :
+    setMinVersion (run St.init ops) v = (run St.init ops, .rejected) ∧
+    scheduleMinVersion (run St.init ops) v n = (run St.init ops, .rejected) ∧
+    proposal (run St.init ops) h v n = (run St.init ops, .rejected) :=
+  lower_min_version_refused (run St.init ops) v h n
+    (vlt_of_invalid_valid v _ hbad (min_version_valid ops).1)
+
+/-- why the stored minimum has to be a version: with an invalid string as the minimum the gate is
+off — `semver.Compare` puts every string at or above it, so every keep-alive of a validator is
+accepted whatever its version and every later minimum, however low, is accepted too -/
+theorem invalid_minimum_voids_gate (s : St) (hbad : vvalid s.minVersion = false) :
+    (∀ (h : Int) (a : Addr) (ver : Ver) (v : Val), findVal s.vals a = some v →
+        (keepAlive s h a ver).2 = .ok) ∧
+    (∀ v : Ver, setMinVersion s v = ({ s with minVersion := v, scheduled := none }, .ok)) := by
+  have hk : vkey s.minVersion = [] := by
+    unfold vvalid at hbad
+    simpa using hbad
+  have hnot : ∀ x : Ver, vlt x s.minVersion = false := by
+    intro x
+    unfold vlt
+    rw [hk]
+    cases vkey x <;> rfl
+  refine ⟨?_, ?_⟩
+  · intro h a ver v hf
+    simp [keepAlive, hf, hnot ver]
+  · intro v
+    simp [setMinVersion, hnot v]
+
+/-- a scheduled requirement is a valid version in every history -/
+theorem scheduled_valid (ops : List Op) (v : Ver) (n : Nat)
+    (h : (run St.init ops).scheduled = some (v, n)) : vvalid v = true := by
+  cases hv : vvalid v with
+  | true => rfl
+  | false =>
+    have h1 := scheduled_never_lower ops v n h
+    have h2 := vlt_of_invalid_valid v _ hv (min_version_valid ops).1
+    rw [h1] at h2
+    cases h2
+
+/-- `InitGenesis` is a history: when it does not panic, the state it leaves is the one reached by
+the immediate change followed by the scheduling (so every history theorem covers a chain started
+from, or re-imported with, any genesis state); when it panics nothing is kept. -/
+theorem initGenesis_history (s : St) (cur : Option Ver) (sch : Option (Ver × Nat)) :
+    ((initGenesis s cur sch).2 = .ok ∧ (initGenesis s cur sch).1 = run s (genesisOps cur sch)) ∨
+    initGenesis s cur sch = (s, .rejected) := by
+  have hcur : (genesisCur s cur).1 = run s (genesisOps cur none) := by
+    cases cur <;> rfl
+  have hsch : ∀ s' : St, (genesisSched s' sch).1 = run s' (genesisOps none sch) := by
+    intro s'; cases sch <;> rfl
+  have happ : genesisOps cur sch = genesisOps cur none ++ genesisOps none sch := by
+    cases cur <;> cases sch <;> rfl
+  unfold initGenesis
+  split
+  · right; rfl
+  · split
+    · right; rfl
+    · left
+      refine ⟨rfl, ?_⟩
+      show (genesisSched (genesisCur s cur).1 sch).1 = _
+      rw [hsch, hcur, happ, run_append]
+
+/-- **genesis entries are held to the same rule.** In every history (a fresh store: `ops = []`, the
+comparison is then against the built-in default) a genesis state whose current or scheduled
+requirement is not a semantic version, or is lower than the minimum in force, makes `InitGenesis`
+panic: nothing is stored. -/
+theorem genesis_lower_or_invalid_refused (ops : List Op) (cur : Option Ver) (sch : Option (Ver × Nat))
+    (hbad : (∃ v, cur = some v ∧ (vvalid v = false ∨ vlt v (run St.init ops).minVersion = true)) ∨
+            (∃ v n, sch = some (v, n) ∧ (vvalid v = false ∨ vlt v (run St.init ops).minVersion = true))) :
+    initGenesis (run St.init ops) cur sch = (run St.init ops, .rejected) := by
+  have hlow : ∀ v, (vvalid v = false ∨ vlt v (run St.init ops).minVersion = true) →
+      vlt v (run St.init ops).minVersion = true := by
+    intro v hv
+    rcases hv with hv | hv
+    · exact vlt_of_invalid_valid v _ hv (min_version_valid ops).1
+    · exact hv
+  rcases hbad with ⟨v, rfl, hv⟩ | ⟨v, n, rfl, hv⟩
+  · simp [initGenesis, genesisCur, setMinVersion, hlow v hv]
+  · have h0 := hlow v hv
+    -- the minimum after the current entry is at least the one before it
+    have hcur : (genesisCur (run St.init ops) cur).1 = run (run St.init ops) (genesisOps cur none) := by
+      cases cur <;> rfl
+    have h1 : vlt v (genesisCur (run St.init ops) cur).1.minVersion = true := by
+      rw [hcur]
+      exact vlt_of_vlt_of_vle v _ _ h0 (min_version_monotone _ _)
+    unfold initGenesis
+    split
+    · rfl
+    · split
+      · rfl
+      · rename_i hne
+        exfalso
+        apply hne
+        simp [genesisSched, scheduleMinVersion, h1]
+
 /-- **sentence_schedule.** A successful `Jail` at time `t` records the sentence `nextSentence`,
 jails until `t + sentence`, the sentence is one of the five fixed ones; it is the next longer one
 when the previous jailing is younger than the reset threshold and the shortest one otherwise. -/
@@ -3516,6 +3636,22 @@ theorem older_than_default_refused (ops : List Op) (h : Int) (a : Addr) (ver : V
   rw [collect_snoc]
   simp [kaOf, h1]
 
+/-- **that minimum never decreases, against every earlier minimum.** The minimum in force after any
+longer history is at least the minimum in force at any earlier point of it (the harness monitor
+compares every observed minimum with the highest one observed before). -/
+theorem min_never_below_earlier (s : St) (ops1 ops2 : List Op) :
+    vle (run s ops1).minVersion (run s (ops1 ++ ops2)).minVersion := by
+  rw [run_append]
+  exact min_version_monotone (run s ops1) ops2
+
+/-- **old versions refused, against every earlier minimum.** A keep-alive from a relayer older than
+a minimum that was in force at ANY earlier point of the history is refused. -/
+theorem old_version_refused_any_earlier_minimum (s : St) (ops1 ops2 : List Op) (h : Int) (a : Addr)
+    (ver : Ver) (hold : vlt ver (run s ops1).minVersion = true) :
+    keepAlive (run s (ops1 ++ ops2)) h a ver = (run s (ops1 ++ ops2), .rejected) := by
+  rw [run_append]
+  exact old_version_refused_forever (run s ops1) ops2 h a ver hold
+
 
 set_option maxRecDepth 100000 in
 /-- **the 25 % rule is evaluated at the validator's turn, not before the sweep.** From `St.init`:
@@ -3791,5 +3927,46 @@ example : DueFrom upgStore 1000 upgOps 1040 upgVal ∧
   · intro g hg
     have : upgStore.grace.get upgVal.addr = some 990 := by decide
     rw [this] at hg; cases hg; omega
+
+/-- "2.1.0" -/
+def verNoV210 : Ver := [50, 46, 49, 46, 48]
+/-- "v2.0.0", "v2.1.0", "v1.12.0", "v1.9.0" -/
+def ver200 : Ver := [118, 50, 46, 48, 46, 48]
+def ver210 : Ver := [118, 50, 46, 49, 46, 48]
+def ver1120 : Ver := [118, 49, 46, 49, 50, 46, 48]
+def ver190 : Ver := [118, 49, 46, 57, 46, 48]
+
+set_option maxRecDepth 100000 in
+/-- non-vacuity of `unprefixed_version_invalid` / `invalid_min_version_refused` /
+`genesis_lower_or_invalid_refused`: the history "v2.0.0 at once, then `2.1.0` (no leading `v`, spells
+a HIGHER number) immediately / scheduled / by proposal / by genesis": all refused, the minimum stays
+`v2.0.0`, after which a `v1.9.0` keep-alive and a `v1.12.0` minimum are refused while `v2.1.0` with
+the `v` is accepted through each path -/
+example :
+    verNoV210.head? ≠ some 118 ∧ vvalid verNoV210 = false ∧ vvalid ver210 = true ∧
+    (run St.init [.proposal 100 ver200 0]).minVersion = ver200 ∧
+    (proposal (run St.init [.proposal 100 ver200 0]) 100 verNoV210 150).2 = .rejected ∧
+    (proposal (run St.init [.proposal 100 ver200 0]) 100 verNoV210 0).2 = .rejected ∧
+    (initGenesis (run St.init [.proposal 100 ver200 0]) (some verNoV210) none).2 = .rejected ∧
+    (initGenesis (run St.init [.proposal 100 ver200 0]) (some ver200) (some (verNoV210, 150))).2 = .rejected ∧
+    (initGenesis St.init (some verNoV210) none).2 = .rejected ∧
+    (run St.init [.proposal 100 ver200 0, .proposal 100 verNoV210 150, .beginBlock 150,
+        .setMinVersion ver1120]).minVersion = ver200 ∧
+    (keepAlive (run (addVal St.init ⟨[1], .bonded, false, 10⟩).1 [.proposal 100 ver200 0, .proposal 100 verNoV210 150,
+        .beginBlock 150]) 151 [1] ver190).2 = .rejected ∧
+    (keepAlive (run (addVal St.init ⟨[1], .bonded, false, 10⟩).1 [.proposal 100 ver200 0]) 151 [1] ver210).2 = .ok ∧
+    (initGenesis St.init (some ver200) (some (ver210, 150))).2 = .ok ∧
+    (initGenesis St.init (some ver200) (some (ver210, 150))).1.minVersion = ver200 ∧
+    (initGenesis St.init (some ver200) (some (ver210, 150))).1.scheduled = some (ver210, 150) ∧
+    (run St.init (genesisOps (some ver200) (some (ver210, 150)) ++ [.beginBlock 150])).minVersion = ver210 := by
+  decide
+
+/-- non-vacuity of `invalid_minimum_voids_gate`: were `2.1.0` ever stored as the minimum, the `v1.9.0`
+keep-alive would be accepted and the minimum could be set to `v1.12.0` (what the theorems above exclude) -/
+example :
+    vvalid ({ St.init with minVersion := verNoV210 }).minVersion = false ∧
+    (keepAlive { (addVal St.init ⟨[1], .bonded, false, 10⟩).1 with minVersion := verNoV210 } 151 [1] ver190).2 = .ok ∧
+    (setMinVersion { St.init with minVersion := verNoV210 } ver1120).1.minVersion = ver1120 := by
+  decide
 
 end Paloma.KeepAlive
